@@ -83,7 +83,10 @@ fn run_pair(s: (u64, u64), r: (u64, u64), ls: &[Kv], lr: &[Kv], long_id: bool, o
     let xc = cid(&x);
     let who = format!("sender (gc {}, mv {}) {} entries / receiver (gc {}, mv {}) {} entries", s.0, s.1, ls.len(), r.0, r.1, lr.len());
     let mut sender = mk_node(simple_id("s", 9501), &NodeOpts::default());
-    if install_member(&mut sender.cc, "c", &x, 5, s.0, ls, s.1).is_err() {
+    if let Err(e) = install_member(&mut sender.cc, "c", &x, 5, s.0, ls, s.1) {
+        if e.contains("PANIC") {
+            out.findings.push(Finding::new(&["C04", "C14"], "pair.install_panic", format!("{who}: building the sender's copy through honest messages: {e}")));
+        }
         out.c.inc("install_failed");
         return;
     }
@@ -378,7 +381,10 @@ pub fn run_c04_scope(args: &Args, deadline: &Deadline) -> (PairOut, bool) {
                 continue;
             }
             let mut node = mk_node(simple_id("r", 9502), &NodeOpts::default());
-            if install_member(&mut node.cc, "c", &x, 5, *gc, lay, *mv).is_err() {
+            if let Err(e) = install_member(&mut node.cc, "c", &x, 5, *gc, lay, *mv) {
+                if e.contains("PANIC") {
+                    out.findings.push(Finding::new(&["C04", "C09"], "scope.panic", format!("building the copy (gc {gc}, mv {mv}) through honest messages: {e}")));
+                }
                 out.c.inc("install_failed");
                 continue;
             }
@@ -396,6 +402,11 @@ pub fn run_c04_scope(args: &Args, deadline: &Deadline) -> (PairOut, bool) {
             out.hashes.push(mix3(mix(*gc, *mv), hash_of(&before.2), mix3(*dgc, *from, hash_of(&(kvs, tail)))));
             match catch(|| feed(&mut node.cc, &bytes)) {
                 Ok(Ok(_)) => {}
+                Ok(Err(e)) if e.starts_with("PANIC") => {
+                    // (feed reports a panic inside the crate under test as an error string)
+                    out.findings.push(Finding::new(&["C04", "C09"], "scope.panic", format!("copy (gc {gc}, mv {mv}) {:?} + delta (gc {dgc}, from {from}, kvs {kvs:?}, tail {tail:?}): {e}", lay.iter().map(|k| (k.2, k.3)).collect::<Vec<_>>())));
+                    continue;
+                }
                 Ok(Err(_)) => {
                     out.c.inc("deltas_rejected_by_decoder");
                     continue;
